@@ -679,6 +679,33 @@ def digit_table_stage(chk, M):
     chk.obligation("corr:digit_table", "correspondence", not bad)
 
 
+def search_hook(M, jsonrpc):
+    """After a tie break: run the monitors (the property on the real code) on fresh values
+    around the disagreeing case and report the first failure that is not a known finding."""
+    def hook(cf):
+        case = cf.get("case") or {}
+        probe = vlib.Check("C08", AREA)
+        rng = vlib.Rng(1, "C08-search:" + json.dumps(case, sort_keys=True, default=str)[:200])
+        classes = [case["cls"]] if case.get("cls") in GENS else CLASSES
+        specs = [GENS[c](rng) for c in classes for _ in range(60 // len(classes) + 1)]
+        stages = (lambda: model_stage(probe, M, specs), lambda: constraint_stage(probe, M),
+                  lambda: rpc_stage(probe, M, jsonrpc, specs), lambda: event_stage(probe, M, specs),
+                  lambda: storage_stage(probe, M, specs))
+        real_eval = globals()["eval_cases"]
+        globals()["eval_cases"] = lambda *a, **k: True  # monitors only, no Coq
+        try:
+            for st in stages:
+                st()
+        finally:
+            globals()["eval_cases"] = real_eval
+        findings = vlib.load_findings("C08")
+        for mf in probe.monitor_failures:
+            if not any(vlib.finding_matches(e, mf["monitor"], mf["key"]) for e in findings):
+                return mf
+        return None
+    return hook
+
+
 def load_corpus():
     out = []
     for f in sorted((vlib.VERIF / "corpus" / "C08").glob("*.json")):
@@ -715,6 +742,7 @@ def run(chk):
         specs += [GENS[cls](chk.rng) for _ in range(n)]
     for s in specs[:3]:
         chk.sample({"cls": s["cls"], "serialize": spec_json(s)})
+    chk.search_hook = search_hook(M, jsonrpc)
     digit_table_stage(chk, M)
     model_stage(chk, M, specs)
     constraint_stage(chk, M)
